@@ -95,9 +95,9 @@ def replay(chk, exe, cfgname, n, nrec, nbytes):
         chk.sample(dict(kind="spec->code behaviour (controller-scheduled)", threads=n, steps=[(g.edges[i][1]["op"], g.edges[i][1]["args"][0]) for i in paths[len(paths) // 2]][:24]))
 
 
-def free_running(chk, exe, runs, tag, tsan=False):
+def free_running(chk, exe, runs, tag, tsan=False, nbytes=4, cfg="log/LogMTTrace.cfg"):
     rng = random.Random("%s/%s/%s" % (chk.seed, chk.pid, tag))
-    cases = [dict(sink=rng.choice(["stdout", "stderr"]), threads=rng.choice([2, 2, 3, 4, 8, 16]), nrec=3, nbytes=4, seed=rng.randint(1, 10 ** 6)) for _ in range(runs)]
+    cases = [dict(sink=rng.choice(["stdout", "stderr"]), threads=rng.choice([2, 2, 3, 4, 8, 16] if nbytes <= 8 else [2, 3, 4]), nrec=3, nbytes=nbytes, seed=rng.randint(1, 10 ** 6)) for _ in range(runs)]
     env = {"TSAN_OPTIONS": "halt_on_error=1:exitcode=3:report_signal_unsafe=0"} if tsan else None
     obs = vc.run_cases(exe, cases, chk.out, tag, per_case_timeout=60, shards=4 if tsan else 8, env=env)
     execs, meta = [], []
@@ -121,13 +121,13 @@ def free_running(chk, exe, runs, tag, tsan=False):
     if tsan:
         chk.notes.append("ThreadSanitizer pass: %d free-running executions" % len(cases))
         return
-    rej, st = vc.validate_trace("log/LogMTTrace", "log/LogMTTrace.cfg", execs, chk.out, tag + "_trace", batch=6000)
+    rej, st = vc.validate_trace("log/LogMTTrace", cfg, execs, chk.out, tag + "_trace", batch=6000)
     chk.states += st["states"]
     chk.transitions += st["states"]
     chk.recorded += len(execs) - st["unexamined"]
     for k, matched, path, why in rej:
         c, o = meta[k]
-        reason = check_events(o["events"], c["threads"], 3, 4) or "(see trace)"
+        reason = check_events(o["events"], c["threads"], 3, nbytes) or "(see trace)"
         ev = execs[k][min(matched, len(execs[k]) - 1)]
         chk.diverge(ev["e"] if ev["e"] != "Enter" else "Acquire", "mutual-exclusion" if ev["e"] == "Enter" else "interleaved", c,
                     "free-running %s sink, %d threads, seed %d: event %d %s(thread %d) rejected by LogMTTrace (%s): %s" % (
@@ -194,6 +194,8 @@ def run(chk, replay_path):
     chk.exhaustive = True
     chk.bounds["models"] = "2 threads x 2 records x 2 bytes, 3 threads x 1 record x 2 bytes" + ("; 3 x 2 x 2" if chk.thorough() else "")
     free_running(chk, exe, 60 if chk.tier == "quick" else 600, "free")
+    # long records (beyond what a narrow length field or one buffer chunk holds) stay contiguous too
+    free_running(chk, exe, 6 if chk.tier == "quick" else 40, "free_long", nbytes=300, cfg="log/LogMTTrace_long.cfg")
     if chk.thorough():
         texe = vc.build_driver("logmt_driver_tsan", ["logmt_driver.cpp"], ldflags=["-pthread", "-fsanitize=thread"], flags=["-pthread", "-fsanitize=thread"], sanitize=False)
         free_running(chk, texe, 100, "tsan", tsan=True)
